@@ -441,6 +441,26 @@ func (ex *Exec) binop(in *ssa.BinOp) Val {
 		}
 		name := "bv_" + map[token.Token]string{token.AND: "and", token.OR: "or", token.XOR: "xor", token.SHL: "shl", token.SHR: "shr", token.AND_NOT: "andnot"}[in.Op]
 		e = ex.uf(name, []string{sInt, sInt}, sInt, x.E, y.E)
+		if in.Op == token.AND || in.Op == token.OR || in.Op == token.XOR {
+			// both operands small (below 16): exact, expanded bit by bit; otherwise uninterpreted
+			var bits []string
+			for i := 0; i < 4; i++ {
+				bx := fmt.Sprintf("(mod (div %s %s) 2)", x.E, pow2(i))
+				by := fmt.Sprintf("(mod (div %s %s) 2)", y.E, pow2(i))
+				var b string
+				switch in.Op {
+				case token.AND:
+					b = fmt.Sprintf("(* %s %s)", bx, by)
+				case token.OR:
+					b = fmt.Sprintf("(ite (= (+ %s %s) 0) 0 1)", bx, by)
+				default:
+					b = fmt.Sprintf("(mod (+ %s %s) 2)", bx, by)
+				}
+				bits = append(bits, fmt.Sprintf("(* %s %s)", pow2(i), b))
+			}
+			small := fmt.Sprintf("(and (<= 0 %s) (< %s 16) (<= 0 %s) (< %s 16))", x.E, x.E, y.E, y.E)
+			e = fmt.Sprintf("(ite %s (+ %s) %s)", small, strings.Join(bits, " "), e)
+		}
 		r := Val{E: em.define("bv", sInt, e), S: sInt, T: rt}
 		if w := em.wf(r); w != "" {
 			em.emit("(assert " + w + ")")
